@@ -125,11 +125,21 @@ Definition run_tables (v : val) : val :=
   VL [ VL (map (fun c => if is_scalar (as_N c) then of_bool (is_word_cp (as_N c)) else VN 2) (as_list (fld 0 v)));
        VL (map (fun b => VN (rank (as_N b))) (as_list (fld 1 v))) ].
 
+(* 1111: (options patterns) -> (is_fixed_strings  wrap(fixed_hir)) ; options as for 1101, with icase = field 6,
+   smart = field 7, fixed = field 8 *)
+Definition run_fixed (v : val) : val :=
+  let o := fld 0 v in
+  let c := decode_config o in
+  let pats := map as_bytes (as_list (fld 1 v)) in
+  VL [ of_bool (is_fixed_strings (as_bool (fld 6 o)) (as_bool (fld 7 o)) (as_bool (fld 8 o)) (c_line_terminator c) pats);
+       encode_hir (wrap c (fixed_hir pats)) ].
+
 Definition entry (k : N) (v : val) : option val :=
   if (k =? 1101)%N then Some (run_build v)
   else if (k =? 1102)%N then Some (run_passes v)
   else if (k =? 1103)%N then Some (run_lines v)
   else if (k =? 1105)%N then Some (run_look v)
   else if (k =? 1107)%N then Some (run_strip_ban v)
+  else if (k =? 1111)%N then Some (run_fixed v)
   else if (k =? 1190)%N then Some (run_tables v)
   else None.
